@@ -33,6 +33,8 @@ pub struct Ctl {
     pub calls: AtomicI64,
     /// > 0: every mutating call takes that many (tokio) milliseconds before it writes: slow storage, never failing
     pub slow_ms: AtomicI64,
+    /// > 0: every iter_metadata call (what the start-up loader reads) takes that many milliseconds
+    pub slow_read_ms: AtomicI64,
 }
 
 impl Ctl {
@@ -45,6 +47,7 @@ impl Ctl {
             log: Mutex::new(Vec::new()),
             calls: AtomicI64::new(0),
             slow_ms: AtomicI64::new(0),
+            slow_read_ms: AtomicI64::new(0),
         })
     }
 }
@@ -145,6 +148,10 @@ impl<I: Backing> Storage for HStore<I> {
     }
 
     async fn iter_metadata(&self, k: &str) -> Result<Self::MetadataIter, Self::Error> {
+        let ms = self.ctl.slow_read_ms.load(Ordering::SeqCst);
+        if ms > 0 {
+            tokio::time::sleep(std::time::Duration::from_millis(ms as u64)).await;
+        }
         self.inner.iter_metadata(k).await
     }
 
